@@ -1,6 +1,7 @@
 package main
 
 import (
+	"go/token"
 	"go/types"
 	"strings"
 
@@ -356,12 +357,52 @@ func runC16(e *Engine, r *Report) {
 							return false
 						}
 						bt, ok := ph.Type().Underlying().(*types.Basic)
-						return ok && bt.Kind() == types.Bool
+						if !ok || bt.Kind() != types.Bool {
+							return false
+						}
+						// the "no snapshot recorded" flag: a flag variable (all edges constant) that becomes
+						// true only behind a sentinel test of the lookup's error (errors.Is / ==)
+						viaSentinel := false
+						for i, ed := range ph.Edges {
+							c, isC := ed.(*ssa.Const)
+							if !isC {
+								return false
+							}
+							if cb, ok := isConstBool(c); ok && cb {
+								pred := ph.Block().Preds[i]
+								if len(pred.Instrs) == 0 {
+									return false
+								}
+								ok2 := false
+								for _, f := range FactsAt(pred.Instrs[len(pred.Instrs)-1]) {
+									if cl, isCall := f.V.(*ssa.Call); isCall && f.Pol {
+										if sc := cl.Call.StaticCallee(); sc != nil && sc.Name() == "Is" {
+											ok2 = true
+										}
+									}
+									if b, isB := f.V.(*ssa.BinOp); isB && f.Pol && b.Op == token.EQL && isErrorType(b.X.Type()) {
+										ok2 = true
+									}
+								}
+								if !ok2 {
+									return false
+								}
+								viaSentinel = true
+							}
+						}
+						return viaSentinel
 					}
 					r.guard("GD-orphans", "processOrphans removes a complete snapshot directory", c,
 						reqAny("no snapshot is recorded, or the directory's index differs from the recorded snapshot's",
 							reqBool("", isBoolPhi, true),
-							reqCmp("", "!=", anyV(), fieldV(ssIndex))))
+							reqCmp("", "!=", func(v ssa.Value) bool {
+								// the directory's own index: computed, not a constant and not a snapshot record's index
+								v = stripConv(v)
+								if _, isC := v.(*ssa.Const); isC {
+									return false
+								}
+								return !fieldV(ssIndex)(v)
+							}, fieldV(ssIndex))))
 				})
 				r.floor("GD-orphans (complete directories)", k, 1)
 			}
